@@ -3,6 +3,8 @@
 // does not report its control is broken (exit 2).  It is never linked into anything.
 #include <GeographicLib/Constants.hpp>
 #include <GeographicLib/Math.hpp>
+#include <GeographicLib/Utility.hpp>
+#include <algorithm>
 #include <cmath>
 #include <cstring>
 #include <stdexcept>
@@ -66,6 +68,25 @@ namespace GeographicLib {
     static char Pick(int i) {
       if (i < 0 || i > 4) throw GeographicErr("bad index");
       return alpha_[i];
+    }
+    // X9: the second half of the buffer is filled from the wrong offset when prec > 3
+    static void HalfFilled(real x, int prec, std::string& out) {
+      if (!(prec >= 0 && prec <= 5)) throw GeographicErr("bad precision");
+      char buf[10];
+      const int n = prec < 3 ? prec : 3;
+      int ix = int(x), iy = int(2 * x);
+      for (int c = n; c--;) { buf[c] = alpha_[ix % 4]; buf[c + n] = alpha_[iy % 4]; ix /= 4; iy /= 4; }
+      for (int c = n; c < prec; ++c) { buf[c] = 'A'; buf[c + prec] = 'B'; }
+      out.resize(2 * prec);
+      std::copy(buf, buf + 2 * prec, out.begin());
+    }
+    // X10: the guard admits the terminating value, the decoded latitude reaches +90
+    static void Decode(const std::string& code, real& lat, real& lon) {
+      if (code.length() != 2) throw GeographicErr("bad length");
+      int k = Utility::lookup(alpha_, code[0]), j = Utility::lookup(alpha_, code[1]);
+      if (k < 0 || j < 0) throw GeographicErr("bad letter");
+      lat = k * real(60) - 90;        // k in [0, 3]: 90 is attained
+      lon = j * real(90) - 180;
     }
     static const char* const alpha_;
   private:
